@@ -170,6 +170,7 @@ func (g *gen) addNode(kind string) int {
 		n.Init = g.r.Intn(1000)
 	} else {
 		n.Salt = 1 + g.r.Intn(5000)
+		n.Fail = g.r.Chance(1, 3)
 	}
 	g.d.Nodes = append(g.d.Nodes, n)
 	return len(g.d.Nodes) - 1
@@ -224,13 +225,13 @@ func genHist(r *hx.Rng, thorough bool) histDesc {
 			g.addParam()
 		}
 		for len(g.d.Nodes) < total {
-			g.addNode(hx.Pick(r, []string{"arr", "mix", "two", "arr", "chain"}))
+			g.addNode(hx.Pick(r, []string{"arr", "mix", "two", "multi", "pref", "chain"}))
 		}
 		wire = append(wire, func() {
 			ps, ss := g.params(), g.structs()
 			n := ss[len(ss)-1]
 			for _, s := range ss {
-				if k := g.d.Nodes[s].Kind; k == "arr" || k == "mix" || k == "two" {
+				if k := g.d.Nodes[s].Kind; k == "arr" || k == "mix" || k == "two" || k == "multi" || k == "pref" {
 					n = s
 				}
 			}
@@ -256,7 +257,7 @@ func genHist(r *hx.Rng, thorough bool) histDesc {
 			g.addParam()
 		}
 		for len(g.d.Nodes) < total {
-			g.addNode(hx.Pick(r, []string{"quad", "wide", "bin", "mix"}))
+			g.addNode(hx.Pick(r, []string{"quad", "wide", "bin", "mix", "multi", "pref"}))
 		}
 		wire = append(wire, func() {
 			ps := g.params()
@@ -437,6 +438,73 @@ func fixedCases() []histDesc {
 			{Op: "disconnect", N: 3, Port: "X.1"}, {Op: "read", N: 4}, {Op: "set", N: 2, V: 31}, {Op: "read", N: 4}, {Op: "read", N: 4},
 			{Op: "disconnect", N: 3, Port: "S"}, {Op: "read", N: 4}, {Op: "set", N: 2, V: 32}, {Op: "read", N: 4},
 			{Op: "disconnect", N: 3, Port: "X.1"}, {Op: "read", N: 3}, {Op: "set", N: 2, V: 33}, {Op: "read", N: 4}, {Op: "set", N: 1, V: 20}, {Op: "read", N: 4}, {Op: "read", N: 4}}
+		out = append(out, d)
+	}
+	// a processor that FAILS in a non-terminal position: parameter -> B (may fail) -> C, and D = bin(B, Q).
+	// The parameter toggles between values B rejects and values B accepts; the consumers are read without
+	// reading B directly.  Value() of a failed node serves what Process() returned next to the error.
+	{
+		const saltB = 17
+		hashB := func(v int) int { return (((saltB*37+11+1)%hmod)*31 + v) % hmod }
+		var bad, good []int
+		for v := 1; len(bad) < 3 || len(good) < 3; v++ {
+			if hashB(v)%3 == 0 {
+				bad = append(bad, v)
+			} else {
+				good = append(good, v)
+			}
+		}
+		d := histDesc{Shape: "fixed-failing-upstream", Nodes: []nodeDesc{{Kind: "pval", Init: good[0]}, {Kind: "vnode", Init: 50},
+			{Kind: "chain", Salt: saltB, Fail: true}, {Kind: "chain", Salt: 23}, {Kind: "bin", Salt: 29}}}
+		d.Ops = []opDesc{{Op: "connect", N: 2, Port: "In", Src: 0}, {Op: "connect", N: 3, Port: "In", Src: 2},
+			{Op: "connect", N: 4, Port: "B", Src: 2}, {Op: "connect", N: 4, Port: "A", Src: 1},
+			{Op: "set", N: 0, V: bad[0]}, {Op: "read", N: 3}, {Op: "read", N: 3},
+			{Op: "set", N: 0, V: good[1]}, {Op: "read", N: 3}, {Op: "read", N: 3}, {Op: "read", N: 4}, // B succeeded: D caches the good B
+			{Op: "set", N: 0, V: bad[1]}, {Op: "set", N: 1, V: 51}, {Op: "read", N: 4}, {Op: "read", N: 4}, {Op: "read", N: 3},
+			{Op: "set", N: 0, V: bad[2]}, {Op: "read", N: 2}, {Op: "read", N: 3}, {Op: "read", N: 4},
+			{Op: "set", N: 0, V: good[2]}, {Op: "set", N: 1, V: 52}, {Op: "read", N: 4}, {Op: "read", N: 3}, {Op: "read", N: 2}, {Op: "read", N: 2}}
+		out = append(out, d)
+	}
+	// two array ports and plain ports before / between / after them, all dependencies at pairwise different
+	// versions, then 240 idle reads: an inconsistent (or map-order dependent) enumeration shows up as executions
+	{
+		d := histDesc{Shape: "fixed-multi-idle"}
+		for p := 0; p < 7; p++ {
+			d.Nodes = append(d.Nodes, nodeDesc{Kind: []string{"pval", "vnode"}[p%2], Init: 10 + p})
+		}
+		d.Nodes = append(d.Nodes, nodeDesc{Kind: "multi", Salt: 31}, nodeDesc{Kind: "chain", Salt: 37})
+		for p := 0; p < 7; p++ {
+			for k := 0; k < p; k++ {
+				d.Ops = append(d.Ops, opDesc{Op: "set", N: p, V: 100*p + k})
+			}
+		}
+		d.Ops = append(d.Ops, opDesc{Op: "connect", N: 7, Port: "Inputs.0", Src: 0}, opDesc{Op: "connect", N: 7, Port: "Inputs.1", Src: 1},
+			opDesc{Op: "connect", N: 7, Port: "Offset", Src: 2}, opDesc{Op: "connect", N: 7, Port: "Scales.0", Src: 3},
+			opDesc{Op: "connect", N: 7, Port: "Scales.1", Src: 6}, opDesc{Op: "connect", N: 7, Port: "Zeta", Src: 4},
+			opDesc{Op: "connect", N: 7, Port: "Alpha", Src: 5}, opDesc{Op: "connect", N: 8, Port: "In", Src: 7})
+		for k := 0; k < 240; k++ {
+			d.Ops = append(d.Ops, opDesc{Op: "read", N: 8 - k%2})
+		}
+		out = append(out, d)
+	}
+	// prefix-sharing names (I, In.k, In2, Ina, Inb.k), different versions, 200 idle reads
+	{
+		d := histDesc{Shape: "fixed-prefix-idle"}
+		for p := 0; p < 7; p++ {
+			d.Nodes = append(d.Nodes, nodeDesc{Kind: []string{"vnode", "pval"}[p%2], Init: 20 + p})
+		}
+		d.Nodes = append(d.Nodes, nodeDesc{Kind: "pref", Salt: 41})
+		for p := 0; p < 7; p++ {
+			for k := 0; k < (p*3)%7; k++ {
+				d.Ops = append(d.Ops, opDesc{Op: "set", N: p, V: 100*p + k})
+			}
+		}
+		d.Ops = append(d.Ops, opDesc{Op: "connect", N: 7, Port: "In.0", Src: 0}, opDesc{Op: "connect", N: 7, Port: "In.1", Src: 1},
+			opDesc{Op: "connect", N: 7, Port: "In2", Src: 2}, opDesc{Op: "connect", N: 7, Port: "Ina", Src: 3},
+			opDesc{Op: "connect", N: 7, Port: "Inb.0", Src: 4}, opDesc{Op: "connect", N: 7, Port: "I", Src: 5}, opDesc{Op: "connect", N: 7, Port: "Inb.1", Src: 6})
+		for k := 0; k < 200; k++ {
+			d.Ops = append(d.Ops, opDesc{Op: "read", N: 7})
+		}
 		out = append(out, d)
 	}
 	return out
